@@ -939,8 +939,14 @@ def apply(ctx, e, name, ins):
     cb2 = remap(cb, bb, b.ndim)
     bshape = a2.shape[:len(ba)]
     res = None
+    def _arr(v):
+      if isinstance(v, np.ndarray):
+        return v
+      o = np.empty((), dtype=object)
+      o[()] = v
+      return o
     for idx in np.ndindex(*bshape):
-      r = tdot(a2[idx], b2[idx], ca2, cb2)
+      r = tdot(_arr(a2[idx]), _arr(b2[idx]), ca2, cb2)
       if res is None:
         res = np.empty(bshape + r.shape, dtype=object)
       res[idx] = r if r.ndim else r[()]
@@ -1216,6 +1222,8 @@ def _scatter(ctx, e, name, ins):
   if name == 'scatter':
     a_op = jp.asarray(np.arange(n_op, dtype=np.float64).reshape(op.shape))
     a_up = jp.asarray((np.arange(n_up, dtype=np.float64) + n_op).reshape(upd.shape))
+    if n_op + n_up >= 2 ** 24:
+      raise SXUnsupported('scatter too large for index tracking')
     o = np.asarray(e.primitive.bind(a_op, idxc, a_up, **p)).astype(int)
     flat = op.reshape(-1).tolist() + upd.reshape(-1).tolist()
     res = np.empty(o.size, dtype=object)
@@ -1224,9 +1232,10 @@ def _scatter(ctx, e, name, ins):
     return res.reshape(o.shape)
   if n_up == 0:
     return op
+  dt_ = e.invars[0].aval.dtype
   basis = np.eye(n_up).reshape((n_up,) + upd.shape)
-  z = jp.zeros(op.shape)
-  S = np.asarray(jax.vmap(lambda u: e.primitive.bind(z, idxc, u, **p))(jp.asarray(basis))).reshape(n_up, n_op)
+  z = jp.zeros(op.shape, dtype=dt_)
+  S = np.asarray(jax.vmap(lambda u: e.primitive.bind(z, idxc, u, **p))(jp.asarray(basis, dtype=dt_))).reshape(n_up, n_op)
   out = op.reshape(-1).copy()
   uf = upd.reshape(-1)
   for k in range(n_up):
